@@ -57,6 +57,7 @@ type World struct {
 	responses []string
 	simCtx    sdk.Context // the dropped branch shared by chained SIM steps
 	simActive bool
+	cancelled bool // the Go context under every sdk.Context is cancelled
 }
 
 // ---------- tracing store service ----------
@@ -233,7 +234,13 @@ func NewWorld(out *bufio.Writer, denom string) *World {
 }
 
 func (w *World) ctx() sdk.Context {
-	return sdk.NewContext(w.ms, cmtproto.Header{}, false, log.NewNopLogger())
+	c := sdk.NewContext(w.ms, cmtproto.Header{}, false, log.NewNopLogger())
+	if w.cancelled {
+		gc, cancel := context.WithCancel(context.Background())
+		cancel()
+		c = c.WithContext(gc)
+	}
+	return c
 }
 
 func (w *World) emit(format string, a ...interface{}) {
